@@ -20,7 +20,7 @@ typedef struct {
   int locks, unlocks; fiber_spinlock_t* held;
   int ctl_calls, ctl_op, ctl_fd; unsigned ctl_mask;
   int yields; int scheduled[3]; int sched_bad;
-  int wake_result_closed;
+  int wake_result_closed; int unlocked_access;
 } ghost_t;
 ghost_t G;
 fiber_manager_t VM0;
@@ -32,11 +32,16 @@ int* __errno_location(void) { static int e; return &e; }
 static void spec_snap(void) {}
 static void spec_step(int site) {}
 static void spec_env(int site) {}
-static void spec_read(int site, void* addr) {}
-#include "verif_point.inc"
 #define TBLN 4
 static fd_wait_info_t WTABLE[TBLN];
-static int FD; static unsigned EV0; static int ADDED0; static fiber_t* WAITERS0;
+static int FD;
+/* every access to the descriptor's record (waiter list, interest, added) happens with its spinlock held: a waiter links itself and is
+ * switched out under that lock, so a poller walking the list without it can wake a fiber that is still running (C01) */
+static void spec_read(int site, void* addr) {
+  if (VERIF_IN_OBJECT(addr, WTABLE, sizeof(WTABLE)) && addr != (void*)&WTABLE[FD].spinlock && G.held != &WTABLE[FD].spinlock) G.unlocked_access = 1;
+}
+#include "verif_point.inc"
+static unsigned EV0; static int ADDED0; static fiber_t* WAITERS0;
 
 fiber_manager_t* fiber_manager_get(void) { return &VM0; }
 void fiber_do_real_sleep(uint32_t s, uint32_t us) {}
@@ -63,7 +68,7 @@ void fiber_scheduler_schedule(fiber_scheduler_t* s, fiber_t* f) {
 }
 static void setup(void) {
   event_fd = 3; timer_fd = 2; max_fd = (int)verif_pick(TBLN) + 1; wait_info = WTABLE;
-  G.locks = G.unlocks = G.ctl_calls = G.yields = 0; G.held = 0; G.scheduled[1] = G.scheduled[2] = 0; G.sched_bad = 0;
+  G.locks = G.unlocks = G.ctl_calls = G.yields = 0; G.held = 0; G.scheduled[1] = G.scheduled[2] = 0; G.sched_bad = 0; G.unlocked_access = 0;
   VM0.current_fiber = &ME; VM0.spinlock_to_unlock = 0; VM0.scheduler = (fiber_scheduler_t*)&VM0; ME.state = FIBER_STATE_RUNNING;
   FD = (int)verif_pick((unsigned)max_fd);
   EV0 = (verif_bool() ? EPOLLIN : 0) | (verif_bool() ? EPOLLOUT : 0); ADDED0 = verif_bool();
@@ -79,7 +84,7 @@ void h_wait_for_event(void) {
   unsigned req = (unsigned)verif_pick(3) + 1; /* FIBER_POLL_IN, _OUT, or both */
   unsigned want = (req & FIBER_POLL_IN ? EPOLLIN : 0) | (req & FIBER_POLL_OUT ? EPOLLOUT : 0);
   int r = fiber_wait_for_event(FD, req);
-  VASSERT(G.locks == 1 && G.unlocks == 0 && G.yields == 1, "C08.event: lock once, switch once, the lock is released by the successor");
+  VASSERT(G.locks == 1 && G.unlocks == 0 && G.yields == 1 && !G.unlocked_access, "C08.event: lock once, switch once, the lock is released by the successor; the descriptor's record is touched only under the lock");
   VASSERT((unsigned)WTABLE[FD].events == (EV0 | want) && WTABLE[FD].added == 1, "C08.event: my direction is added to the descriptor's interest");
   VASSERT(G.ctl_calls == 1 && G.ctl_fd == FD && G.ctl_op == (ADDED0 ? EPOLL_CTL_MOD : EPOLL_CTL_ADD), "C08.event: the kernel is (re)armed once: ADD the first time, MOD afterwards");
   VASSERT(G.ctl_mask == (EPOLLONESHOT | EV0 | want), "C08.event: the kernel is armed with the ACCUMULATED interest of all waiters on the descriptor (nobody's direction is dropped)");
@@ -95,6 +100,7 @@ void h_poll_fd_event(void) {
   int n = fiber_poll_events_internal(0, 0);
   unsigned rest = (EV0 & ~FIRED) & (EPOLLIN | EPOLLOUT);
   VASSERT(n == 1 && G.locks == 1 && G.unlocks == 1 && G.held == 0, "C08.event: the descriptor's state is updated under its spinlock");
+  VASSERT(!G.unlocked_access, "C08.event: the poller touches the descriptor's waiter list and interest only while holding its spinlock (a waiter on the list may still be running until the lock is released by its successor)");
   VASSERT((unsigned)WTABLE[FD].events == rest, "C08.event: fired directions are cleared, the others kept");
   if (rest) VASSERT(G.ctl_calls == 1 && G.ctl_op == EPOLL_CTL_MOD && G.ctl_fd == FD && G.ctl_mask == (EPOLLONESHOT | rest), "C08.event: the remaining interest is re-armed (one-shot registrations are consumed by the event)");
   else VASSERT(G.ctl_calls == 0, "C08.event: nothing to re-arm");
@@ -108,7 +114,7 @@ void h_fd_closed(void) {
   if (fd >= 0 && fd < max_fd) VASSUME(fd == FD);
   fiber_fd_closed(fd);   /* memory safety for every int: bounds/pointer checks on wait_info[fd] */
   if (fd >= 0 && fd < max_fd && event_fd >= 0) {
-    VASSERT(WTABLE[fd].events == 0 && WTABLE[fd].added == 0 && G.locks == 1 && G.unlocks == 1, "C08.close: interest cleared under the descriptor's spinlock");
+    VASSERT(WTABLE[fd].events == 0 && WTABLE[fd].added == 0 && G.locks == 1 && G.unlocks == 1 && !G.unlocked_access, "C08.close: interest cleared under the descriptor's spinlock");
     VASSERT(!G.sched_bad && WTABLE[fd].waiters == 0 && (WAITERS0 == 0 || (G.scheduled[1] && (intptr_t)W1.scratch == -1)), "C08.close: every waiter is woken once with the closed marker");
     if (EV0 || ADDED0) VASSERT(G.ctl_calls == 1 && G.ctl_op == EPOLL_CTL_DEL, "C08.close: the kernel registration is removed"); 
   } else VASSERT(G.locks == 0 && G.ctl_calls == 0, "C08.invalid: fiber_fd_closed touches nothing for a descriptor outside the table");
